@@ -449,7 +449,30 @@ def _spatial_kwargs(sc, h):
     return kw
 
 
+class CallerSettingsChanged(Exception):
+    """the call changed the settings dictionary of its caller: the next call with 'the same settings' is another one"""
+
+
+def _same_settings(a, b):
+    if isinstance(a, dict) or isinstance(b, dict):
+        return isinstance(a, dict) and isinstance(b, dict) and set(a) == set(b) and all(_same_settings(a[k], b[k]) for k in a)
+    if isinstance(a, np.ndarray) or isinstance(b, np.ndarray):
+        return np.shape(a) == np.shape(b) and bool(np.all(np.asarray(a) == np.asarray(b)))
+    return a == b
+
+
 def _call_destripe(x, sc, h, labels, kw=None):
+    if kw is None:
+        return _call_destripe_(x, sc, h, labels, kw)
+    before = copy.deepcopy(kw)
+    out = _call_destripe_(x, sc, h, labels, kw)
+    if not _same_settings(before, kw):
+        gone = sorted(set(before) - set(kw)) if isinstance(kw, dict) else []
+        raise CallerSettingsChanged(f"k_kwargs changed by destripe(k_filter={sc['variant'] == 'kfilt'}): keys removed {gone}")
+    return out
+
+
+def _call_destripe_(x, sc, h, labels, kw=None):
     import ibldsp.voltage as V
     kf = sc["variant"] == "kfilt"
     extra = {} if kw is None else {"k_kwargs": kw}
